@@ -1744,6 +1744,11 @@ def unmodelled_doc2(env_order=("all", "a", "b")):
     '<PARAM xsi:type="TABLE-STRUCT"><SHORT-NAME>data</SHORT-NAME><BYTE-POSITION>2</BYTE-POSITION><TABLE-KEY-REF ID-REF="rq_tab2.key"/></PARAM>'
     '<PARAM xsi:type="TABLE-STRUCT"><SHORT-NAME>more</SHORT-NAME><BYTE-POSITION>5</BYTE-POSITION><TABLE-KEY-REF ID-REF="rq_tab2.key"/></PARAM>'
     '</PARAMS></REQUEST>'
+    # a TABLE-KEY which names its row statically (TABLE-ROW-REF): nothing of it is in the PDU
+    f'<REQUEST ID="rq_tab3"><SHORT-NAME>rq_tab3</SHORT-NAME><PARAMS>{_cc("sid", 0, 0x34)}'
+    '<PARAM ID="rq_tab3.key" xsi:type="TABLE-KEY"><SHORT-NAME>key</SHORT-NAME><BYTE-POSITION>1</BYTE-POSITION><TABLE-ROW-REF ID-REF="tab.r2"/></PARAM>'
+    '<PARAM xsi:type="TABLE-STRUCT"><SHORT-NAME>data</SHORT-NAME><BYTE-POSITION>2</BYTE-POSITION><TABLE-KEY-REF ID-REF="rq_tab3.key"/></PARAM>'
+    '</PARAMS></REQUEST>'
     f'<REQUEST ID="rq_dtc"><SHORT-NAME>rq_dtc</SHORT-NAME><PARAMS>{_cc("sid", 0, 0x19)}{_vp("dtc", 1, "dtcdop")}{_vp("st", 4, "u8")}</PARAMS></REQUEST>'
     '</REQUESTS>'
     f'<POS-RESPONSES><POS-RESPONSE ID="pr_list"><SHORT-NAME>pr_list</SHORT-NAME><PARAMS>{_cc("sid", 0, 0x59)}{_vp("dtc_list", 1, "items")}</PARAMS></POS-RESPONSE>'
@@ -1887,6 +1892,18 @@ def unmodelled_composites_roundtrip2(ck):
         d, e2, _ = cc.guarded(lambda: rq.decode(r), timeout=3)
         if e2 is not None or d.get("key") != row or tuple(d.get("data", ())) != (row, val):
             ck.violation(f"rq_tab: decode(encode(data=({row!r}, {val!r}))) = {d!r} {e2!r}", rep_)
+            return
+    rq = [x for x in raw.requests if x.short_name == "rq_tab3"][0]
+    for val in (0xBEEF, 0):
+        n += 1
+        want = bytes([0x34, 7]) + val.to_bytes(2, "big")
+        ck.count(("table-static-row", val))
+        rep_ = {"document": "harness/codec_checks.py UNMODELLED_DOC2", "request": "rq_tab3", "value": val}
+        r, e, _ = cc.guarded(lambda: bytes(rq.encode(data=("r2", val))), timeout=3)
+        d, e2, _ = cc.guarded(lambda: rq.decode(want), timeout=3)
+        if e is not None or r != want or e2 is not None or d.get("key") != "r2" or tuple(d.get("data", ())) != ("r2", val):
+            ck.violation(f"rq_tab3 (TABLE-KEY with a static TABLE-ROW-REF), data=('r2', {val}): encoded {r.hex() if e is None else repr(e)} "
+                         f"(layout: {want.hex()}), decoded {d!r} {e2!r}", rep_)
             return
     rq = [x for x in raw.requests if x.short_name == "rq_tabt"][0]
     for row, key, val, wire in (("t1", b"AB", 0xBEEF, "beef"), ("t2", b"CD", {"k": 5, "d": 0x1234}, "051234")):
